@@ -440,7 +440,7 @@ func c06Gen(c *core.Ctx) {
 		emit(s, "dedicated")
 	}
 	// arithmetic: expressions with 0, 1 and >=2 faults, through Eval and Expand
-	arith := []string{"1 + 2", "x = 5", "1 1 $", "08 + 1/0", "(1=2) + (y=7)", "x = 1 +", "1/0 + (y=8)", "(y=8) + 1/0", "x++ + ++y", "1 ? x=2 : (y=3)", "0 && (x=1)", "1 || 1/0", "a b", "1 +* 2", "$", "((1)", "1 << -1", "x = y = z = 4", "y += x++ * 2", "09", "z = 1 1", "(x=1) , 2", "x++ @", "(x = 1) @", "(x += 1)@", "y = 2 #", "x = 5 $", "(x = 1) + (y = 2) .", "++x ]"}
+	arith := []string{"1 + 2", "x = 5", "1 1 $", "08 + 1/0", "(1=2) + (y=7)", "x = 1 +", "1/0 + (y=8)", "(y=8) + 1/0", "x++ + ++y", "1 ? x=2 : (y=3)", "0 && (x=1)", "1 || 1/0", "a b", "1 +* 2", "$", "((1)", "1 << -1", "x = y = z = 4", "y += x++ * 2", "09", "z = 1 1", "(x=1) , 2", "x++ @", "(x = 1) @", "(x += 1)@", "y = 2 #", "x = 5 $", "(x = 1) + (y = 2) .", "++x ]", "x y @", "1 2 3 $ 4", "(1) (2) #", "a b c @ d", "1 1 1 1 1 1 $", "2 2 `"}
 	for i, e := range arith {
 		for _, via := range []string{"eval", "expand"} {
 			core.Do(c, c06Case{Src: e, Arith: true, Via: via, Store: map[string]string{"x": "3", "y": fmt.Sprint(i)}, Kind: "arith"}, c06Exec)
